@@ -4,7 +4,7 @@ import random
 
 import numpy as np
 
-from common import COQ, REPO, Run, TranslateError, write_if_changed
+from common import COQ, REPO, Run, TranslateError, get_function, write_if_changed
 
 PID = "C09"
 
@@ -43,8 +43,10 @@ def translate():
                 f = _ns(node.func)
                 last = f.split(".")[-1]
                 if f.startswith(("np.random.", "numpy.random.")):
-                    if last in draw_ok or last in ("seed", "set_state", "get_state"):
+                    if last in draw_ok or last == "seed":
                         continue
+                    if last in ("set_state", "get_state"):
+                        continue   # placed and classified below (checkpoint save / load only)
                     if last == "RandomState" and [_ns(a) for a in node.args] == ["self.random_state"] and not node.keywords:
                         continue
                     raise TranslateError(f"{rel}:{node.lineno}: unexpected randomness source {f}({', '.join(_ns(a) for a in node.args)})")
@@ -53,6 +55,13 @@ def translate():
                     raise TranslateError(f"{rel}:{node.lineno}: unexpected randomness source / reseeding {f}(...)")
                 if f.startswith("self._rng.") and last not in draw_ok:
                     raise TranslateError(f"{rel}:{node.lineno}: unexpected use of the private generator: {f}")
+    for p, tree in trees.items():
+        for node in ast.walk(tree):
+            if isinstance(node, (ast.FunctionDef, ast.ClassDef)):
+                for dec in node.decorator_list:
+                    if _ns(dec).split("(")[0].split(".")[-1] in ("lru_cache", "cache", "cached_property", "memoize"):
+                        raise TranslateError(f"{p.relative_to(REPO)}:{node.lineno}: memoised factory / attribute ({_ns(dec)}): objects built by it are shared "
+                                             f"between samplers, so a run can depend on the runs before it")
     run_path_funcs = {"run_sampling", "execute_iteration", "_initialize_fresh", "fit", "predict", "predict_proba", "run",
                       "sample", "compute_posterior", "_propose", "from_particles", "from_global", "_initialize_parameters",
                       "_e_step", "_m_step", "fit_mvstud", "systematic_resample", "trim_weights", "__init__"}
@@ -76,6 +85,14 @@ def translate():
                         cls = "ConfigRandomState"
                     elif arg in ("d['random_state']",):
                         cls = "CheckpointRandomState"
+                        # legacy fallback only: it must sit in the else-branch of "the checkpoint holds a generator state"
+                        in_fallback = any(isinstance(anc, ast.If) and _ns(anc.test) == "d.get('rng_state')isnotNone"
+                                          and any(node in list(ast.walk(o)) for o in anc.orelse) for anc in ast.walk(fn))
+                        if not in_fallback:
+                            raise TranslateError(f"{rel}:{node.lineno}: a load seeds with the checkpoint's random_state although it may hold the "
+                                                 f"generator state (a resumed run would replay the stream)")
+                    elif arg in ("d['rng_state']",) and _ns(node.func) == "np.random.set_state" and fn.name == "load_sampler_state":
+                        cls = "CheckpointStreamState"
                     elif arg == "self.random_state":
                         lits = literal_attrs.get(owner, set())
                         cls = f"AttributeSetFromLiteral {sorted(lits)[0]}" if lits else "CallerArgument"
@@ -94,6 +111,16 @@ def translate():
                     if fn.name == "_initialize_fresh" and cls == "ConfigRandomState":
                         fresh_seeds = True
                     sites.append((f"{rel}:{node.lineno}:{fn.name}", cls, on_path, guarded))
+    # the generator state is read in one place (a seeded sampler writing a checkpoint) and restored in one place (load)
+    gs = [(p.relative_to(REPO), node) for p, tree in trees.items() for node in ast.walk(tree)
+          if isinstance(node, ast.Call) and _ns(node.func).split(".")[-1] in ("get_state", "set_state") and _ns(node.func).startswith(("np.random", "numpy.random"))]
+    core_py = REPO / "tempest" / "core.py"
+    save_src = _ns(get_function(core_py, "SamplerCore.save_sampler_state")).replace("\n", "")
+    load_src = _ns(get_function(core_py, "SamplerCore.load_sampler_state")).replace("\n", "")
+    stores_stream = "d['rng_state']=np.random.get_state()ifself.config.random_stateisnotNoneelseNone" in save_src
+    restores_stream = "ifd.get('rng_state')isnotNone:np.random.set_state(d['rng_state'])" in load_src
+    if len(gs) != int(stores_stream) + int(restores_stream) or (gs and not (stores_stream and restores_stream)):
+        raise TranslateError(f"generator state read / written outside the checkpoint save / load pair: {[(str(r), n.lineno) for r, n in gs]}")
     # package-internal calls that hand a seed to a routine which seeds the GLOBAL stream with it
     seeding_funcs = {w.split(":")[-1] for (w, cls, on, g) in sites if cls == "CallerArgument"}
     n_forward = 0
@@ -123,6 +150,7 @@ Definition seed_sites : list seed_site := [
 ].
 Definition fresh_init_seeds_with_config_random_state : bool := {str(fresh_seeds).lower()}.
 Definition seeds_forwarded_to_global_seeding_routines : nat := {n_forward}.
+Definition seeded_checkpoint_records_the_stream_and_load_restores_it : bool := {str(bool(stores_stream and restores_stream)).lower()}.
 """
     write_if_changed(COQ / "Gen" / "Seeding.v", text)
     return sites
@@ -142,10 +170,16 @@ def ll_hole(x):
     return -np.inf if x[0] < -1.0 else -0.5 * float(np.sum(x ** 2))
 
 
+def ll_bimodal(x):
+    return float(np.logaddexp(-0.5 * np.sum((x - 2.5) ** 2) / 0.0225, -0.5 * np.sum((x + 2.5) ** 2) / 0.0225))
+
+
 def run_once(random_state, pre_seed, cfg, save_dir=None):
     from tempest import Sampler
     cfg = dict(cfg)
     like = ll_hole if cfg.pop("hole", False) else ll
+    if cfg.pop("bimodal", False):
+        like = ll_bimodal
     calls = []
     orig = np.random.seed
 
@@ -157,8 +191,9 @@ def run_once(random_state, pre_seed, cfg, save_dir=None):
     try:
         orig(pre_seed)
         extra = dict(output_dir=str(save_dir), output_label="c09") if save_dir is not None else {}
-        s = Sampler(pt, like, n_dim=2, n_particles=12, random_state=random_state, **cfg, **extra)
-        s.run(n_total=40, progress=False, save_every=1 if save_dir is not None else None)
+        npart = cfg.pop("n_particles", 12)
+        s = Sampler(pt, like, n_dim=2, n_particles=npart, random_state=random_state, **cfg, **extra)
+        s.run(n_total=40 if npart == 12 else 2 * npart, progress=False, save_every=1 if save_dir is not None else None)
     finally:
         np.random.seed = orig
     h = s.state
@@ -188,7 +223,9 @@ def run_once(random_state, pre_seed, cfg, save_dir=None):
 
 def sweep(run, tier, rng):
     cfgs = [dict(clustering=False), dict(clustering=True), dict(clustering=True, sample="rwm", resample="syst"),
-            dict(clustering=False, hole=True)]
+            dict(clustering=False, hole=True),
+            # two modes and a clustering that is reused between refits: anything one sampler leaves behind for the next one shows here
+            dict(clustering=True, cluster_every=3, bimodal=True, n_particles=128, resample="syst"), dict(clustering=True, cluster_every=2, bimodal=True, n_particles=128)]
     if tier != "quick":
         cfgs += [dict(clustering=False, sample="rwm"), dict(clustering=True, cluster_every=2), dict(clustering=False, resample="syst", volume_variation=0.5)]
     for ci, cfg in enumerate(cfgs):
@@ -235,6 +272,15 @@ def sweep(run, tier, rng):
                                  f"after {name} the next global draw is the same whatever the seed in force before", **what)
         if a[0] == c[0]:
             run.fail("different-seeds-same-result", f"random_state={rs} and {rs + 1} give identical histories", **what)
+        if cfg.get("cluster_every", 1) > 1:
+            # a third run in the same process: nothing a sampler leaves behind (fitted models, caches) may reach the next one
+            try:
+                b2 = run_once(rs, 333, cfg)
+                if b2[0] != a[0]:
+                    run.fail("seeded-run-not-reproducible", f"the third run with random_state={rs} in one process differs from the first "
+                             f"(evidence {b2[0][2]!r} vs {a[0][2]!r})", **what)
+            except Exception as e:
+                run.fail("run-raises", f"seeded run raised {type(e).__name__}: {e}", **what)
         # trace: the only seeding call of a fresh seeded run is seed(random_state)
         if a[2][:1] != [rs] or [v for v in a[2][1:] if True]:
             run.disagree("seeding trace of a fresh seeded run vs model ([SeedUser random_state])", impl=a[2], model=[rs], **what)
@@ -254,6 +300,18 @@ def sweep(run, tier, rng):
         if u1[3] == u2[3] or u1[0] == u2[0]:
             run.fail("stream-after-run-independent-of-prior-seed",
                      "after an unseeded run the next global draw / the history do not depend on the seed in force before it", **what)
+    # the ends of numpy's legal seed range, as Python and numpy integers: legal, distinct, reproducible
+    try:
+        ends = [run_once(sd, 111, cfgs[0]) for sd in (0, 2 ** 32 - 1, np.int64(2 ** 32 - 1), 1, 2 ** 32 - 2)]
+        run.case(key=("repro", "seed-range-ends"), nontrivial=True)
+        if ends[1][0] != ends[2][0]:
+            run.fail("seeded-run-not-reproducible", "random_state=4294967295 as a Python int and as numpy.int64 give different runs", random_state=2 ** 32 - 1)
+        for (i, j) in ((0, 1), (0, 3), (1, 4), (3, 4)):
+            if ends[i][0] == ends[j][0]:
+                sds = (0, 2 ** 32 - 1, 2 ** 32 - 1, 1, 2 ** 32 - 2)
+                run.fail("different-seeds-same-result", f"random_state={sds[i]} and {sds[j]} give identical histories", cfg=cfgs[0], random_states=[sds[i], sds[j]])
+    except Exception as e:
+        run.fail("run-raises", f"seeded run at the end of the seed range raised {type(e).__name__}: {e}")
     run.sample(dict(kind="repro", cfg=str(cfgs[0]), evidence=a[0][2], trace=a[2]))
 
 
@@ -312,6 +370,40 @@ def lifecycle_probe(run):
     if calls or any(g != w for g, w in nxt):
         run.fail("library-reseeds-global-stream", f"loading the checkpoint of an unseeded sampler touched the global stream (np.random.seed called with "
                  f"{calls}; next draws {[g for g, _ in nxt]} instead of {[w for _, w in nxt]})", ops=["unseeded run with save_every=1", "np.random.seed(41)", "fresh.load_state(ckpt)"])
+
+    # (iii) a resumed SEEDED run continues the random stream; it does not replay the innovations of the first iterations of the run that
+    # wrote the checkpoint (seeding again with random_state on load makes a resumed warm-up redraw the first prior batch)
+    d2 = tempfile.mkdtemp(prefix="c09r_", dir=run.scratch.dir)
+    hole = lambda x: -np.inf if x[0] < 0.0 else ll(x)      # half the prior has zero likelihood: several prior-sampling iterations
+    w = Sampler(pt, hole, n_dim=2, n_particles=12, random_state=8, clustering=False, ess_ratio=4.0, output_dir=d2, output_label="w")
+    w.run(n_total=30, progress=False, save_every=1)
+    full_u = [np.array(b) for b in w.state._history["u"]]
+    for k in (1, 2, len(full_u) - 1):
+        ckp = __import__("pathlib").Path(d2) / f"w_{k}.state"
+        if not ckp.exists():
+            continue
+        r = Sampler(pt, hole, n_dim=2, n_particles=12, random_state=8, clustering=False, ess_ratio=4.0)
+        r.run(n_total=30, progress=False, resume_state_path=str(ckp))
+        run.case(key=("lifecycle", "resume-seeded", k), nontrivial=True)
+        new = [np.array(b) for b in r.state._history["u"][k:]]
+        # rows of a new batch that are bit-identical to rows of batch j <= k drawn at the same position of the stream: a replay. (Resampled
+        # copies of stored particles are legitimate: only FRESH prior batches (beta = 0) are compared, they are independent draws.)
+        betas = [float(b) for b in r.state.get_history("beta")]
+        replay = [(k + i + 1, j + 1) for i, nb in enumerate(new) if betas[k + i] == 0.0
+                  for j, ob in enumerate(full_u[:k]) if nb.shape == ob.shape and np.array_equal(nb, ob)]
+        st_after_load = None
+        probe = Sampler(pt, hole, n_dim=2, n_particles=12, random_state=8, clustering=False, ess_ratio=4.0)
+        probe.load_state(str(ckp))
+        st_after_load = np.random.get_state()[1].tobytes()
+        np.random.seed(8)
+        st_fresh = np.random.get_state()[1].tobytes()
+        if replay or st_after_load == st_fresh:
+            run.fail("resume-replays-the-stream", f"Sampler(random_state=8): resuming from checkpoint {k} "
+                     + (f"redraws earlier batches bit for bit (new iteration, replayed iteration): {replay[:3]}; " if replay else "")
+                     + ("after load_state the global generator is in the state np.random.seed(8) produces: the resumed run consumes the stream of the "
+                        "first iterations again" if st_after_load == st_fresh else ""),
+                     ops=["Sampler(random_state=8).run(save_every=1)", f"fresh Sampler(random_state=8).run(resume_state_path=w_{k}.state)"], checkpoint=k)
+            break
 
 
 def fit_probe(run, tier, rng):
